@@ -260,6 +260,7 @@ class WhileToFor:
         if not (isinstance(t, ast.Compare) and len(t.ops) == 1):
             return None
         a, op, b = t.left, t.ops[0], t.comparators[0]
+        loads_after = lambda name: any(isinstance(n, ast.Name) and n.id == name and isinstance(n.ctx, ast.Load) for s in after for n in ast.walk(s))
         # normalise  N > i  to  i < N
         if isinstance(op, ast.Gt) and isinstance(b, ast.Name) and not isinstance(a, ast.Name):
             a, op, b = b, ast.Lt(), a
@@ -269,6 +270,16 @@ class WhileToFor:
             body = w.body[:-1] if skip_last else w.body
             return any(isinstance(n, ast.Name) and n.id == name and isinstance(n.ctx, (ast.Store, ast.Del)) for s in body for n in ast.walk(s))
 
+        # D: it = iter(X) ... while (x := next(it, S)) is not S: body      ==>   for x in X: body
+        if isinstance(op, ast.IsNot) and isinstance(a, ast.NamedExpr) and isinstance(a.target, ast.Name) and isinstance(b, ast.Name) and isinstance(a.value, ast.Call) \
+                and isinstance(a.value.func, ast.Name) and a.value.func.id == "next" and len(a.value.args) == 2 and isinstance(a.value.args[0], ast.Name) \
+                and isinstance(a.value.args[1], ast.Name) and a.value.args[1].id == b.id:
+            itn = a.value.args[0].id
+            init = next((s for s in reversed(before) if isinstance(s, ast.Assign) and len(s.targets) == 1 and isinstance(s.targets[0], ast.Name) and s.targets[0].id == itn), None)
+            if init is not None and isinstance(init.value, ast.Call) and isinstance(init.value.func, ast.Name) and init.value.func.id == "iter" and len(init.value.args) == 1 \
+                    and not any(itn in _names(s) for s in before[before.index(init) + 1:]) and not any(itn in _names(s) for s in w.body) and not loads_after(itn) \
+                    and not any(isinstance(n, ast.Name) and n.id == a.target.id and isinstance(n.ctx, ast.Store) for s in w.body for n in ast.walk(s)):
+                return ast.copy_location(ast.For(target=ast.Name(id=a.target.id, ctx=ast.Store()), iter=init.value.args[0], body=w.body, orelse=[], type_comment=None), w)
         # A: i = A0 ... while i < N: body; i += 1
         if isinstance(op, ast.Lt) and isinstance(a, ast.Name) and _is_incr(w.body[-1], a.id, +1) and not stores_in_body(a.id):
             i = a.id
@@ -438,9 +449,14 @@ class Desugar(ast.NodeTransformer):
         # simultaneous stores of independent values:  self.a, self.b = x, y
         if len(node.targets) == 1 and isinstance(node.targets[0], ast.Tuple) and isinstance(node.value, ast.Tuple) and len(node.targets[0].elts) == len(node.value.elts) \
                 and all(isinstance(t, (ast.Name, ast.Attribute)) for t in node.targets[0].elts):
-            tt = {ast.unparse(t) for t in node.targets[0].elts}
-            reads = {ast.unparse(x) for v in node.value.elts for x in ast.walk(v) if isinstance(x, (ast.Name, ast.Attribute))}
-            if not (tt & reads) and not any(isinstance(x, ast.Call) for v in node.value.elts[1:] for x in ast.walk(v) if False):
+            tts = [ast.unparse(t) for t in node.targets[0].elts]
+            okk = True
+            for k, v in enumerate(node.value.elts):
+                reads = {ast.unparse(x) for x in ast.walk(v) if isinstance(x, (ast.Name, ast.Attribute))}
+                # all values are evaluated before any store: a sequential split is the same when no value reads a target stored before it
+                if reads & set(tts[:k]):
+                    okk = False
+            if okk and not any(isinstance(x, ast.Call) for v in node.value.elts for x in ast.walk(v)):
                 return [ast.copy_location(ast.Assign(targets=[t], value=v, lineno=node.lineno), node) for t, v in zip(node.targets[0].elts, node.value.elts)]
         return node
 
@@ -515,6 +531,7 @@ def namedtuples(tree):
             fields = [s.target.id for s in st.body if isinstance(s, ast.AnnAssign) and isinstance(s.target, ast.Name)]
             if fields and not any(isinstance(s, ast.FunctionDef) for s in st.body):
                 out[st.name] = fields
+                NT_DEFAULTS[st.name] = {s.target.id: s.value for s in st.body if isinstance(s, ast.AnnAssign) and isinstance(s.target, ast.Name) and s.value is not None}
         if isinstance(st, ast.Assign) and len(st.targets) == 1 and isinstance(st.targets[0], ast.Name) and isinstance(st.value, ast.Call) \
                 and ast.unparse(st.value.func) in ("namedtuple", "collections.namedtuple") and len(st.value.args) == 2:
             f = st.value.args[1]
@@ -525,14 +542,23 @@ def namedtuples(tree):
     return out
 
 
+NT_DEFAULTS = {}
+
+
 def _nt_args(call, fields):
-    if len(call.args) + len(call.keywords) != len(fields) or any(isinstance(a, ast.Starred) for a in call.args):
+    if len(call.args) > len(fields) or any(isinstance(a, ast.Starred) for a in call.args):
         return None
     vals = dict(zip(fields, call.args))
     for k in call.keywords:
         if k.arg not in fields or k.arg in vals:
             return None
         vals[k.arg] = k.value
+    dflt = NT_DEFAULTS.get(call.func.id, {}) if isinstance(call.func, ast.Name) else {}
+    for f in fields:
+        if f not in vals:
+            if f not in dflt:
+                return None
+            vals[f] = copy.deepcopy(dflt[f])
     return [vals[f] for f in fields]
 
 
